@@ -124,7 +124,10 @@ class SVRPEnv(RL4COEnvBase):
         current_node = td["action"][:, None]  # Add dimension for step
 
         # if I go back to the depot, send out next technician
-        td["current_tech"] += (current_node == 0).int()
+        # the last technician stays in charge: finished rows keep receiving depot visits as padding
+        td["current_tech"] = torch.clamp(
+            td["current_tech"] + (current_node == 0).int(), max=td["techs"].size(-2) - 1
+        )
 
         # Add one dimension since we write a single value
         visited = td["visited"].scatter(-2, current_node[..., None], 1)
@@ -195,20 +198,21 @@ class SVRPEnv(RL4COEnvBase):
         # calculate travelling costs depending on the technicians' skill level
         costs = torch.zeros(batch_size, locs_ordered.size(-2), device=self.device)
         indices = torch.nonzero(actions == 0)
+        last_tech = len(self.tech_costs) - 1  # depot visits beyond the last technician are padding
         start = tech = 0
         batch = 0
         for each in indices:
             if each[0] > batch:
-                costs[batch, start:] = self.tech_costs[tech]
+                costs[batch, start:] = self.tech_costs[min(tech, last_tech)]
                 start = tech = 0
                 batch = each[0]
             end = (
                 each[-1] + 1
             )  # indices in locs_ordered are shifted by one due to added depot in the front
-            costs[batch, start:end] = self.tech_costs[tech]
+            costs[batch, start:end] = self.tech_costs[min(tech, last_tech)]
             tech += 1
             start = end
-        costs[batch, start:] = self.tech_costs[tech]
+        costs[batch, start:] = self.tech_costs[min(tech, last_tech)]
 
         travel_to = torch.roll(locs_ordered, -1, dims=-2)
         distances = get_distance(locs_ordered, travel_to)
@@ -242,7 +246,8 @@ class SVRPEnv(RL4COEnvBase):
                 start = tech = 0
                 batch = each[0]
             assert (
-                skills_ordered[batch, start : each[1]] <= td["techs"][batch, tech]
+                skills_ordered[batch, start : each[1]]
+                <= td["techs"][batch, min(tech, td["techs"].size(-2) - 1)]
             ).all(), "Skill level not met"
             start = each[1] + 1  # skip the depot
             tech += 1
